@@ -622,3 +622,250 @@ Proof.
   split; [reflexivity|]. split; [reflexivity|].
   intros [H _]. vm_compute in H. discriminate.
 Qed.
+
+(* non-vacuity of the section theorems: a relative cubic, a smooth cubic, a smooth quadratic and an
+   absolute general Bezier in sequence are well formed and run *)
+Example section_sequence_example :
+  let cs := [CCubic true [(1, 0); (1, 1); (2, 1)]; CCubicSmooth false [(4, 0); (5, 0)];
+             CQuadSmooth true [(1, 1)]; CBezier false [(7, 2); (8, 2); (9, 0); (9, 1)]] in
+  Forall wf_call cs /\
+  exists st' secs, run (mkst (0, 0) (0, 0)) cs = Some (st', secs) /\ length secs = 4%nat
+                   /\ cur st' = (9, 1) /\ lctl st' = (9, 0).
+Proof.
+  cbv zeta. split.
+  - repeat constructor; cbn; try lia; try discriminate.
+  - eexists. eexists. split; [vm_compute; reflexivity|]. repeat split.
+Qed.
+
+(* ================================================================== step rule *)
+Lemma Qle_bool_false x y : Qle_bool x y = false <-> y < x.
+Proof.
+  split; intros H.
+  - apply Qnot_le_lt. intros G. apply Qle_bool_iff in G. congruence.
+  - destruct (Qle_bool x y) eqn:E; [|reflexivity].
+    apply Qle_bool_iff in E. exfalso. eapply Qlt_not_le; eassumption.
+Qed.
+
+Theorem step_rule_nan_b_lemma : forall dc d2c tol,
+  step_rule_nan_b dc d2c tol = true <-> step_rule_nan_condition dc d2c tol.
+Proof.
+  intros dc d2c tol. unfold step_rule_nan_b, step_rule_nan_condition. cbv zeta.
+  rewrite !andb_true_iff, !negb_true_iff, !Qle_bool_false, Qle_bool_iff. tauto.
+Qed.
+
+(* F11.  The step rule is not defined for every control polygon and tolerance: at t = 1/2 of the
+   hairpin (0,0) (1,0) (1,0.001) (0,0.001) with tolerance 0.01 the argument of acos is below -1
+   (curvature * tolerance = 26667), and a curve smaller than the tolerance whose control
+   directions span less than a quarter turn -- inside the class the property lists -- has it
+   already at t = 0. *)
+Theorem step_rule_nan_refuted :
+  (exists ctrl tol t, length ctrl = 4%nat /\ 0 < tol /\ 0 <= t <= 1 /\
+     step_rule_nan_condition (decasteljau t (deriv1 ctrl)) (decasteljau t (deriv2 ctrl)) tol)
+  /\ (exists ctrl tol, length ctrl = 4%nat /\ 0 < tol /\ ctrl_span_lt_quarter ctrl = true /\
+     step_rule_nan_condition (decasteljau 0 (deriv1 ctrl)) (decasteljau 0 (deriv2 ctrl)) tol).
+Proof.
+  split.
+  - exists [(0, 0); (1, 0); (1, 1 # 1000); (0, 1 # 1000)], (1 # 100), (1 # 2).
+    split; [reflexivity|]. split; [reflexivity|]. split; [split; discriminate|].
+    apply step_rule_nan_b_lemma. vm_compute. reflexivity.
+  - exists [(0, 0); (1 # 1000, 0); (2 # 1000, 1 # 1000); (3 # 1000, 3 # 1000)], (1 # 100).
+    split; [reflexivity|]. split; [reflexivity|]. split; [vm_compute; reflexivity|].
+    apply step_rule_nan_b_lemma. vm_compute. reflexivity.
+Qed.
+
+(* ================================================================== exact distance test *)
+Local Open Scope Z_scope.
+
+(* squared distance, scaled by m^2, from p to the point a + (n/m) (b - a) of the segment *)
+Definition zlerp_dist2 (p a b : zpt) (n m : Z) : Z :=
+  let x := m * (fst p - fst a) - n * (fst b - fst a) in
+  let y := m * (snd p - snd a) - n * (snd b - snd a) in
+  x * x + y * y.
+
+Lemma lagrange w1 w2 d1 d2 :
+  (w1 * w1 + w2 * w2) * (d1 * d1 + d2 * d2)
+  = (w1 * d1 + w2 * d2) * (w1 * d1 + w2 * d2) + (w1 * d2 - w2 * d1) * (w1 * d2 - w2 * d1).
+Proof. ring. Qed.
+
+(* main result 4: the test answers "yes" exactly when some rational point a + (n/m)(b - a),
+   0 <= n/m <= 1, of the segment is at distance < r from p *)
+Theorem seg_closer_than_lemma : forall p a b r,
+  seg_closer_than p a b r = true <->
+  exists n m : Z, 0 < m /\ 0 <= n <= m /\ zlerp_dist2 p a b n m < r * r * (m * m).
+Proof.
+  intros [px py] [ax ay] [bx by_] r.
+  unfold seg_closer_than, zlerp_dist2, zdot, zcross, zsub. cbn [fst snd].
+  set (w1 := px - ax). set (w2 := py - ay). set (d1 := bx - ax). set (d2 := by_ - ay).
+  replace (px - bx) with (w1 - d1) by (unfold w1, d1; ring).
+  replace (py - by_) with (w2 - d2) by (unfold w2, d2; ring).
+  set (L := d1 * d1 + d2 * d2). set (s := w1 * d1 + w2 * d2).
+  set (W := w1 * w1 + w2 * w2). set (X := w1 * d2 - w2 * d1).
+  assert (HL : 0 <= L) by (unfold L; nia).
+  assert (Hlag : W * L = s * s + X * X) by (unfold W, L, s, X; ring).
+  (* the quadratic |m w - n d|^2 = m^2 W - 2 m n s + n^2 L *)
+  assert (Hq : forall n m, (m * w1 - n * d1) * (m * w1 - n * d1) + (m * w2 - n * d2) * (m * w2 - n * d2)
+                           = m * m * W - 2 * m * n * s + n * n * L)
+    by (intros; unfold W, s, L; ring).
+  destruct (Z.leb_spec s 0) as [Hs|Hs].
+  - (* closest point is a *)
+    rewrite Z.ltb_lt. split.
+    + intros H. exists 0, 1. split; [lia|]. split; [lia|]. rewrite Hq. lia.
+    + intros (n & m & Hm & Hn & H). rewrite Hq in H.
+      assert (0 <= - (2 * m * n * s)) by nia.
+      assert (0 <= n * n * L) by nia.
+      assert (m * m * W < r * r * (m * m)) by lia.
+      nia.
+  - destruct (Z.leb_spec L s) as [HLs|HLs].
+    + (* closest point is b *)
+      rewrite Z.ltb_lt.
+      replace ((w1 - d1) * (w1 - d1) + (w2 - d2) * (w2 - d2)) with (W - 2 * s + L)
+        by (unfold W, s, L; ring).
+      split.
+      * intros H. exists 1, 1. split; [lia|]. split; [lia|]. rewrite Hq. lia.
+      * intros (n & m & Hm & Hn & H). rewrite Hq in H.
+        assert (E : m * m * W - 2 * m * n * s + n * n * L - m * m * (W - 2 * s + L)
+                    = (m - n) * (2 * m * s - L * (m + n))) by ring.
+        assert (0 <= (m - n) * (2 * m * s - L * (m + n))).
+        { apply Z.mul_nonneg_nonneg; [lia|]. nia. }
+        assert (m * m * (W - 2 * s + L) < r * r * (m * m)) by lia.
+        nia.
+    + (* interior projection *)
+      rewrite Z.ltb_lt.
+      assert (HLpos : 0 < L) by lia.
+      split.
+      * intros H. exists s, L. split; [lia|]. split; [lia|]. rewrite Hq.
+        replace (L * L * W - 2 * L * s * s + s * s * L) with (L * (W * L - s * s)) by ring.
+        rewrite Hlag. replace (s * s + X * X - s * s) with (X * X) by ring.
+        replace (r * r * (L * L)) with (L * (r * r * L)) by ring.
+        apply Z.mul_lt_mono_pos_l; assumption.
+      * intros (n & m & Hm & Hn & H). rewrite Hq in H.
+        assert (E : L * (m * m * W - 2 * m * n * s + n * n * L)
+                    = m * m * (X * X) + (m * s - n * L) * (m * s - n * L)).
+        { replace (L * (m * m * W - 2 * m * n * s + n * n * L))
+            with (m * m * (W * L) - 2 * m * n * s * L + n * n * L * L) by ring.
+          rewrite Hlag. ring. }
+        assert (H1 : L * (m * m * W - 2 * m * n * s + n * n * L) < L * (r * r * (m * m)))
+          by (apply Z.mul_lt_mono_pos_l; assumption).
+        rewrite E in H1.
+        assert (0 <= (m * s - n * L) * (m * s - n * L)) by nia.
+        assert (m * m * (X * X) < m * m * (r * r * L)) by lia.
+        assert (0 < m * m) by nia.
+        apply Z.mul_lt_mono_pos_l in H2; assumption.
+Qed.
+
+(* the test is homogeneous: a common positive factor (the common denominator of rational
+   coordinates) does not change the answer -- what q_seg_closer relies on *)
+Lemma zlerp_dist2_scale k p a b n m :
+  zlerp_dist2 (k * fst p, k * snd p) (k * fst a, k * snd a) (k * fst b, k * snd b) n m
+  = k * k * zlerp_dist2 p a b n m.
+Proof. unfold zlerp_dist2. cbn [fst snd]. ring. Qed.
+
+Theorem seg_closer_than_scale_lemma : forall k p a b r, 0 < k ->
+  seg_closer_than (k * fst p, k * snd p) (k * fst a, k * snd a) (k * fst b, k * snd b) (k * r)
+  = seg_closer_than p a b r.
+Proof.
+  intros k p a b r Hk.
+  apply eq_true_iff_eq. rewrite !seg_closer_than_lemma.
+  assert (Hkk : 0 < k * k) by nia.
+  split; intros (n & m & Hm & Hn & H); exists n, m; (split; [assumption|]); (split; [assumption|]).
+  - rewrite zlerp_dist2_scale in H.
+    replace (k * r * (k * r) * (m * m)) with (k * k * (r * r * (m * m))) in H by ring.
+    apply Z.mul_lt_mono_pos_l in H; assumption.
+  - rewrite zlerp_dist2_scale.
+    replace (k * r * (k * r) * (m * m)) with (k * k * (r * r * (m * m))) by ring.
+    apply Z.mul_lt_mono_pos_l; assumption.
+Qed.
+
+(* q_seg_closer is seg_closer_than after multiplying everything by g * den(px) * den(py):
+   with px = nx/dx, py = ny/dy, K = dx*dy, the point (g K px, g K py) = (nx dy g, ny dx g), the
+   segment end points a/g, b/g become K a, K b and the radius r/g becomes K r *)
+Theorem q_seg_closer_lemma : forall g p a b r,
+  q_seg_closer g p a b r = true <->
+  exists n m : Z, 0 < m /\ 0 <= n <= m /\
+    let K := Zpos (Qden (fst p)) * Zpos (Qden (snd p)) in
+    zlerp_dist2 (Qnum (fst p) * Zpos (Qden (snd p)) * Zpos g, Qnum (snd p) * Zpos (Qden (fst p)) * Zpos g)
+                (fst a * K, snd a * K) (fst b * K, snd b * K) n m
+    < (r * K) * (r * K) * (m * m).
+Proof. intros. unfold q_seg_closer. apply seg_closer_than_lemma. Qed.
+
+Example seg_closer_than_example :
+  seg_closer_than (5, 3) (0, 0) (10, 0) 4 = true /\ seg_closer_than (5, 3) (0, 0) (10, 0) 3 = false
+  /\ seg_closer_than (-3, 4) (0, 0) (10, 0) 6 = true /\ seg_closer_than (-3, 4) (0, 0) (10, 0) 5 = false
+  /\ q_seg_closer 4 (5 # 4, 3 # 4) (0, 0) (10, 0) 4 = true.
+Proof. repeat split; vm_compute; reflexivity. Qed.
+
+Local Open Scope Q_scope.
+
+(* nearest grid integer: within half a grid step *)
+Lemma grid_round_lemma g q :
+  inject_Z (grid_round g q) <= q * inject_Z (Zpos g) + (1 # 2)
+  /\ q * inject_Z (Zpos g) + (1 # 2) < inject_Z (grid_round g q) + 1.
+Proof.
+  unfold grid_round. split; [apply Qfloor_le|].
+  pose proof (Qlt_floor (q * inject_Z (Z.pos g) + (1 # 2))) as H.
+  rewrite inject_Z_plus in H. exact H.
+Qed.
+
+(* ================================================================== circle and ellipse points *)
+Definition on_unit_circle (u : pt) : Prop := norm2 u == 1.
+
+(* a line through a point of the unit circle meets the circle again in a rational point *)
+Theorem stereo_on_circle_lemma : forall a c,
+  on_unit_circle a -> ~ norm2 (psub c a) == 0 -> on_unit_circle (stereo a c).
+Proof.
+  intros [ax ay] [cx cy] Ha Hd. unfold on_unit_circle, stereo, norm2, inner, padd, pscale, psub in *.
+  cbn [fst snd] in *.
+  set (dx := cx - ax) in *. set (dy := cy - ay) in *.
+  set (D := dx * dx + dy * dy) in *.
+  set (s := - (2 * (ax * dx + ay * dy)) / D).
+  assert (Hs : s * D == - (2 * (ax * dx + ay * dy))) by (unfold s; field; exact Hd).
+  transitivity ((ax * ax + ay * ay) + s * (2 * (ax * dx + ay * dy)) + s * (s * D)).
+  - unfold D. ring.
+  - rewrite Hs, Ha. ring.
+Qed.
+
+(* the affine map of an ellipse and its inverse *)
+Theorem aff_unapply_lemma : forall f p, ~ aff_det f == 0 ->
+  pteq (aff_apply f (aff_unapply f p)) p.
+Proof.
+  intros f [x y] Hd. unfold pteq, aff_apply, aff_unapply. cbn [fst snd].
+  unfold aff_det in *. split; field; exact Hd.
+Qed.
+
+(* ================================================================== rectangle, cross *)
+(* twice the signed area (shoelace) *)
+Fixpoint shoelace_open (first prev : pt) (l : list pt) : Q :=
+  match l with
+  | [] => cross prev first
+  | p :: tl => cross prev p + shoelace_open first p tl
+  end.
+Definition shoelace2 (l : list pt) : Q :=
+  match l with [] => 0 | p :: tl => shoelace_open p p tl end.
+
+(* rectangle(corner1, corner2): the four documented corners in order -- every vertex takes its
+   abscissa and its ordinate from the two given corners, consecutive vertices share one of them,
+   and the enclosed (signed) area is (x2-x1)(y2-y1) *)
+Theorem rectangle_vertices_lemma : forall x1 y1 x2 y2,
+  rectangle_pts (x1, y1) (x2, y2) = [(x1, y1); (x2, y1); (x2, y2); (x1, y2)]
+  /\ shoelace2 (rectangle_pts (x1, y1) (x2, y2)) == 2 * ((x2 - x1) * (y2 - y1)).
+Proof.
+  intros. split; [reflexivity|].
+  unfold shoelace2, rectangle_pts, shoelace_open, cross. cbn [fst snd]. ring.
+Qed.
+
+(* cross(center, full_size, arm_width): the twelve documented vertices, i.e. the outline of
+   [-s/2, s/2] x [-w/2, w/2]  union  [-w/2, w/2] x [-s/2, s/2] translated to the centre, counter-
+   clockwise from (s/2, w/2); enclosed area 2 s w - w^2 *)
+Theorem cross_vertices_lemma : forall cx cy s w,
+  Forall2 pteq (cross_pts (cx, cy) s w)
+    [(cx + s / 2, cy + w / 2); (cx + w / 2, cy + w / 2); (cx + w / 2, cy + s / 2);
+     (cx - w / 2, cy + s / 2); (cx - w / 2, cy + w / 2); (cx - s / 2, cy + w / 2);
+     (cx - s / 2, cy - w / 2); (cx - w / 2, cy - w / 2); (cx - w / 2, cy - s / 2);
+     (cx + w / 2, cy - s / 2); (cx + w / 2, cy - w / 2); (cx + s / 2, cy - w / 2)]
+  /\ shoelace2 (cross_pts (cx, cy) s w) == 2 * (2 * s * w - w * w).
+Proof.
+  intros. split.
+  - unfold cross_pts. cbn [map padd fst snd].
+    repeat (constructor; [split; cbn [fst snd]; field|]). constructor.
+  - unfold shoelace2, cross_pts, shoelace_open, cross, padd. cbn [map fst snd]. field.
+Qed.
